@@ -10,10 +10,19 @@ CVC5_TIMEOUT_S = int(os.environ.get("VERIF_CVC5_TIMEOUT_S", "60"))
 CVC5 = "/usr/bin/cvc5"
 
 
+# z3's deterministic resource counter advances by roughly 3.5 million units per second of solving on this machine (measured on the
+# decoder VCs).  Budgets are given in "quiet seconds" and enforced through `rlimit`, so a verdict does not flip when all cores are busy
+# (a wall-clock timeout does: the very same VC was `unsat` alone and `unknown` next to a dozen other jobs); the wall-clock timeout is
+# only a backstop at eight times the budget.
+Z3_RLIMIT_PER_S = 3_500_000
+WALL_BACKSTOP = 8
+
+
 def _z3_try(smt2, timeout_ms, seed):
     import z3
     s = z3.Solver()
-    s.set("timeout", int(timeout_ms))
+    s.set("rlimit", int(timeout_ms / 1000.0 * Z3_RLIMIT_PER_S))
+    s.set("timeout", int(timeout_ms) * WALL_BACKSTOP)
     if seed:
         s.set("random_seed", seed)
         s.set("smt.random_seed", seed)
@@ -40,13 +49,21 @@ def _cvc5_try(smt2, strings):
         logic = "HO_ALL" if "(lambda" in text else "ALL"
         f.write(f"(set-logic {logic})\n" + text + ("\n(check-sat)\n" if "(check-sat)" not in text else ""))
         path = f.name
-    cmd = [CVC5, "--lang=smt2", f"--tlimit={CVC5_TIMEOUT_S * 1000}"]
+    # the limit is CPU time of the cvc5 process (RLIMIT_CPU), not wall-clock time: load-independent; wall-clock backstop at eight times that
+    cmd = [CVC5, "--lang=smt2", f"--tlimit={CVC5_TIMEOUT_S * 1000 * WALL_BACKSTOP}"]
     if strings:
         cmd.append("--strings-exp")
+
+    def _limit():
+        import resource
+        resource.setrlimit(resource.RLIMIT_CPU, (CVC5_TIMEOUT_S, CVC5_TIMEOUT_S + 5))
     try:
-        p = subprocess.run(cmd + [path], capture_output=True, text=True, timeout=CVC5_TIMEOUT_S + 10)
+        p = subprocess.run(cmd + [path], capture_output=True, text=True, timeout=CVC5_TIMEOUT_S * WALL_BACKSTOP + 10, preexec_fn=_limit)
+    except subprocess.TimeoutExpired:
+        return "", "cvc5: wall-clock backstop"
     finally:
-        os.unlink(path)
+        if os.path.exists(path):
+            os.unlink(path)
     out = p.stdout.strip().split("\n")[0] if p.stdout.strip() else ""
     return out, (out or p.stderr.strip()[:200])
 
@@ -93,10 +110,8 @@ def _solve_one(job):
 
     done = z3_stage([0], first)
     if not done and not quick and use_cvc5:
-        if strings:
-            done = cvc5_stage() or z3_stage([1, 2, 3], 15000) or z3_stage([4, 5, 6, 7], budget_ms // 8)
-        else:
-            done = z3_stage([1, 2, 3], 10000) or cvc5_stage() or z3_stage([4, 5, 6, 7, 8, 9], budget_ms // 8)
+        # cvc5 straight after the first z3 attempt (it decides in seconds the quantified array VCs z3 gives up on under most seeds), then the seeds
+        done = cvc5_stage() or z3_stage([1, 2, 3], 15000 if strings else 10000) or z3_stage([4, 5, 6, 7] if strings else [4, 5, 6, 7, 8, 9], budget_ms // 8)
     return idx, res, backend, time.time() - t0, info
 
 
